@@ -33,7 +33,10 @@ Inductive ev :=
 | Pong (g t : Z)                (* the answer to ping generation g arrives at t: Notify, then the receivePong callback of g *)
 | PongCb (g : Z)                (* the receivePong callback of generation g alone (component level) *)
 | Tick (t : Z) (sendok : bool)  (* housekeeping: CheckInactivity(t); sendok = sendPing succeeds if called *)
-| Dgram (t : Z) (sendok : bool) (* udp server getConn for an existing peer: CheckExpirations(t + slack), then Notify unless closed *).
+| Dgram (t : Z) (sendok : bool) (* udp server getConn for an existing peer: CheckExpirations(t + slack), then Notify unless closed *)
+| Frag (t : Z)                  (* stream connection (tcp/client/session.go Run): a socket read at t returned bytes after
+                                   which processBuffer decoded no complete message (ErrShortRead, or fewer bytes than the
+                                   header announces): the bytes are buffered, Notify is NOT called *).
 
 Inductive obs := Cancel (g : Z) | Ping (g : Z) | PingFail (g : Z) | Close.
 
@@ -86,6 +89,7 @@ Definition step (c : cfg) (s : st) (e : ev) : st * list obs :=
   | Dgram t ok =>
       let '(s1, o) := check c s (t + slack) ok in
       if closed s1 then (s1, o) else (notify c s1 t, o)
+  | Frag _ => (s, [])
   end.
 
 Fixpoint run (c : cfg) (s : st) (h : list ev) : list (ev * list obs) :=
@@ -99,6 +103,19 @@ Fixpoint final (c : cfg) (s : st) (h : list ev) : st :=
   | [] => s
   | e :: r => final c (fst (step c s e)) r
   end.
+
+(* ---- stream connections, byte level -------------------------------------------
+   tcp/client/session.go Run: for { processBuffer(buffer); n := Read(readBuf); buffer.Write(readBuf[:n]) }.
+   A byte-level history is what the socket and the housekeeping clock do: *)
+Inductive bev :=
+| BRead (t : Z) (n : nat)        (* one successful socket read at t returns the next n bytes of the peer's stream *)
+| BTick (t : Z) (sendok : bool). (* housekeeping tick *)
+
+(* what a read that completed k messages means for the monitor: processBuffer calls
+   Notify once per decoded message (k times, all within the same read), and not at
+   all when no message is complete *)
+Definition read_evs (k : nat) (t : Z) : list ev :=
+  match k with O => [Frag t] | _ => repeat (Recv t) k end.
 
 (* options.WithKeepAlive: duration = timeout / time.Duration(maxRetries+1), the
    sum computed in uint32; None = integer divide by zero (run-time panic) *)
